@@ -284,6 +284,60 @@ def run_framers(case):
                     break
             sim.probe('sink_attached_mid_stream')
 
+        # ---- two parsers alive at once (two transports in one process), their chunks interleaved: neither disturbs the other
+        if not sim.violations and n >= 2:
+            other = list(reversed(expected)) if len(expected) > 1 else [expected[0][:1] + expected[0][1:]]
+            ostream = b''.join(other)
+            for _ in range(3):
+                evaluations += 1
+                ca = _chunk(stream, [r.randrange(1, n) for _ in range(r.randint(1, 5))])
+                cb = _chunk(ostream, [r.randrange(1, n) for _ in range(r.randint(1, 5))])
+                sa, sb = Sink(), Sink()
+                pa = common.PacketParser(sa)
+                pb = None
+                ia = ib = 0
+                try:
+                    while ia < len(ca) or ib < len(cb):
+                        if ia < len(ca) and (ib >= len(cb) or r.random() < 0.5):
+                            pa.feed_data(ca[ia])
+                            ia += 1
+                        else:
+                            if pb is None:
+                                pb = common.PacketParser(sb)  # created while the first one may be in the middle of a packet
+                            pb.feed_data(cb[ib])
+                            ib += 1
+                except Exception as e:
+                    sim.violation_once('two-parsers', f'push-parser:raised-on-well-formed-stream:two-parsers:{type(e).__name__}', repr(e))
+                    break
+                if sa.got != expected or sb.got != other:
+                    sim.violation_once('two-parsers', 'push-parser:two-parsers-interfere', f'parser A emitted {len(sa.got)}/{len(expected)} packets, parser B {len(sb.got)}/{len(other)}; chunk sizes {[len(c) for c in ca][:6]} / {[len(c) for c in cb][:6]}')
+                    break
+            sim.probe('two_parsers_interleaved')
+
+        # ---- unrecognised type byte at a packet boundary, through the stream transports' protocol object (tcp, unix, serial, file):
+        # the packets before it are delivered once, the data fed afterwards is framed from its first byte
+        if case['bad'] in ('last_of_chunk', 'alone') and len(expected) >= 2 and not sim.violations:
+            k = 1 + case['bad_at'] % (len(expected) - 1)
+            bad = bytes([r.choice([0x00, 0x06, 0x07, 0x80, 0xFF])])
+            head, tail = b''.join(expected[:k]), b''.join(expected[k:])
+            sink = Sink()
+            src = sim.call(common.StreamPacketSource)  # needs a running loop
+            src.set_packet_sink(sink)
+            evaluations += 1
+            try:
+                if case['bad'] == 'last_of_chunk':
+                    src.data_received(head + bad)
+                else:
+                    src.data_received(head)
+                    src.data_received(bad)
+                for ch in _chunk(tail, [r.randrange(1, max(2, len(tail))) for _ in range(3)]):
+                    src.data_received(ch)
+            except Exception as e:
+                sim.violation_once('bad-stream', f'bad-type-byte:stream-source-raised:{case["bad"]}:{type(e).__name__}', repr(e))
+            if sink.got != expected and not sim.violations:
+                what = 'spurious-or-duplicated' if len(sink.got) > len(expected) else ('lost' if len(sink.got) < len(expected) else 'different-bytes')
+                sim.violation_once('bad-stream', f'bad-type-byte:stream-source-packets-{what}:{case["bad"]}', f'{len(sink.got)} packets delivered, {len(expected)} well-formed packets were sent around the bad byte')
+
         # ---- unrecognised type byte at a packet boundary
         if case['bad'] and len(expected) >= 2:
             k = 1 + case['bad_at'] % (len(expected) - 1)  # before packet k
